@@ -171,6 +171,32 @@ class Sources:
         for stem in list(self.user) + list(self.builtin):
             self.set(stem, NONE)
 
+    def set_strays(self, rng, class_names, density=0.35):
+        """Stray files around the templates of `class_names`: listed by the loaders, nobody's template.  Multi-dot names
+        (Class.orig.j2), backup suffixes (Class.j2.bak), other case, hidden files, directories named like templates."""
+        for user, rel in getattr(self, "strays", []):
+            base = self.usr if user else self.tpl
+            (base / rel).unlink()
+            (self.extra_user if user else self.extra_builtin).remove(rel)
+        self.strays = []
+        sub = {True: "u/", False: "b/"} if self.layout == 1 else {True: "", False: ""}
+        for n in class_names:
+            for user in (True, False):
+                if rng.random() > density:
+                    continue
+                forms = [n + ".orig" + SUFFIX, n + ".wip" + SUFFIX, n + SUFFIX + ".bak", "." + n + SUFFIX, n + "." + SUFFIX, n + SUFFIX + SUFFIX[:-1],
+                         "strays/" + n + SUFFIX + "/inner.txt", "strays/" + n + SUFFIX + "/part" + SUFFIX, n + ".v2.final" + SUFFIX, n + SUFFIX.upper()]
+                if n.upper() != n:
+                    forms.append(n.upper() + SUFFIX)
+                if n.lower() != n:
+                    forms.append(n.lower() + SUFFIX)
+                for f in rng.sample(forms, rng.randint(1, 3)):
+                    rel = (rng.choice(["", sub[user]]) if not f.startswith("strays/") else "") + f
+                    if (user, rel) in self.strays or rel in (self.extra_user if user else self.extra_builtin):
+                        continue
+                    self.add_decoy(user, rel)
+                    self.strays.append((user, rel))
+
     def listing(self, user):
         """What the Jinja loader lists: every file, sorted."""
         d, ex = (self.user, self.extra_user) if user else (self.builtin, self.extra_builtin)
@@ -253,6 +279,7 @@ def lookup_case(src, mode, classes, index_of, hier="@", extra=None):
 def describe(lc, names):
     return {"mode": lc.mode, "layout": lc.sources.layout, "user_templates": sorted(lc.sources.user.values()),
             "builtin_templates": sorted(lc.sources.builtin.values()), "lookups": [names(c) for c in lc.classes],
+            "other_user_files": sorted(lc.sources.extra_user), "other_builtin_files": sorted(x for x in lc.sources.extra_builtin if x != "__init__.py"),
             "results": lc.impl}
 
 
@@ -462,8 +489,12 @@ def run(ctx: common.Ctx):
             else:
                 ctx.count("expect-" + exp[1] + ("-self" if exp[0] == target.__name__ else "-ancestor"))
             if (exp[0] if exp else None) != got_stem:
-                past_any = got_stem is not None and got_stem not in [c.__name__ for c in chain_to_any(target)]
-                if past_any:
+                past_any = got_stem is not None and got_stem in by_name and got_stem not in [c.__name__ for c in chain_to_any(target)]
+                if got_stem is not None and got_stem not in by_name:
+                    ctx.fail({"kind": "stray-file-taken-as-template"},
+                             f"{target.__name__} resolved to {got}, whose stem {got_stem!r} (name minus the last suffix) is not the name of any class",
+                             {"stream": "lookup", **describe(lc, names), "expected": exp})
+                elif past_any:
                     ctx.fail({"kind": "chain-passes-any", "stem": got_stem},
                              f"{target.__name__} resolved to {got}: a class beyond pydsdl.Any in __bases__ (the chain of the property ends at Any)",
                              {"stream": "lookup", **describe(lc, names), "expected": exp})
@@ -525,6 +556,7 @@ def run(ctx: common.Ctx):
                 break
             c = bs[0]
         near, far = full_chain[:K], full_chain[K:]
+        src.set_strays(rng, [c.__name__ for c in full_chain])
         relatives = list(dict.fromkeys(full_chain + [d for a in full_chain for d in a.__subclasses__() if d in index_of]))
         for k, assign in enumerate(itertools.product((NONE, USER, BUILTIN, BOTH), repeat=len(near))):
             for cl in far:
@@ -539,8 +571,10 @@ def run(ctx: common.Ctx):
             maybe_flush()
     # random: global assignments over all classes, both layouts, longer warm-ups
     nrand = 1500 if ctx.quick else 6000
-    for _ in range(nrand):
+    for it in range(nrand):
         src = rng.choice(srcs)
+        if it % 25 == 0:
+            src.set_strays(rng, [c.__name__ for c in table_classes], density=0.3)
         dens = rng.choice([0.1, 0.3, 0.6])
         for cl in table_classes:
             src.set(cl.__name__, rng.choice((USER, BUILTIN, BOTH)) if rng.random() < dens else NONE)
@@ -637,7 +671,17 @@ def run(ctx: common.Ctx):
     e_root = ctx.scratch / "gs"
     e_dirs = [e_root / "u1", e_root / "u2"]
     e_pkg = Sources(ctx, 0)
-    tnames = ["A.j2", "B.j2", "sub/C.j2", "D.txt"]
+    tnames = ["A.j2", "sub/C.j2", "link/L.j2", "D.txt"]   # `link` is a symbolic link in the user directories (followlinks off)
+
+    def spellings(t, legal):
+        if legal:
+            return list(dict.fromkeys([t, "./" + t, "/" + t, t + "/", "./" + t.replace("/", "/./"), t.replace("/", "//"), ".//" + t, "/./" + t]))
+        return ["../" + t, "sub/../" + t, "x/../" + t, t + "/.."]
+
+    def oracle_canonical(name):
+        pieces = name.split("/")
+        return None if ".." in pieces else "/".join(x for x in pieces if x not in ("", "."))
+
     src_lines, src_impl = [], []
     for k, assign in enumerate(itertools.product(range(8), repeat=len(tnames))):
         if ctx.quick and k % 11 and rng.random() < 0.95:
@@ -645,21 +689,33 @@ def run(ctx: common.Ctx):
         shutil.rmtree(e_root, ignore_errors=True)
         for d in e_dirs:
             d.mkdir(parents=True)
-        for f in list(e_pkg.tpl.rglob("*")):
+        for f in sorted(e_pkg.tpl.rglob("*"), reverse=True):
             if f.is_file() and f.name != "__init__.py":
                 f.unlink()
         stores = [[], [], []]
         for t, bits in zip(tnames, assign):
             for j, base in enumerate(e_dirs + [e_pkg.tpl]):
                 if bits >> j & 1:
-                    p = base / t
-                    p.parent.mkdir(parents=True, exist_ok=True)
-                    p.write_text(f"{'USR' if j < 2 else 'PKG'} {j}")
+                    if j < 2 and t.startswith("link/"):
+                        side = e_root / f"side{j}"
+                        side.mkdir(exist_ok=True)
+                        (side / t.split("/", 1)[1]).write_text(f"USR {j}")
+                        if not (base / "link").exists():
+                            os.symlink(side, base / "link", target_is_directory=True)
+                    else:
+                        p = base / t
+                        p.parent.mkdir(parents=True, exist_ok=True)
+                        p.write_text(f"{'USR' if j < 2 else 'PKG'} {j}")
                     stores[j].append((t, j))
         for cfg in ("both", "fs", "pkg"):
             ld = DSDLTemplateLoader(templates_dirs=e_dirs if cfg != "pkg" else None,
                                     package_name_for_templates=e_pkg.pkgname if cfg != "fs" else None)
+            requests = []
             for t in tnames + ["missing.j2"]:
+                legal = spellings(t, True)
+                requests += [t] + (legal[1:] if not ctx.quick else rng.sample(legal[1:], 2)) + \
+                    (spellings(t, False) if not ctx.quick else [rng.choice(spellings(t, False))])
+            for t in requests:
                 try:
                     s = ld.get_source(jenv, t)[0]
                     impl = ("user:" if s.startswith("USR") else "builtin:") + s.split()[1]
@@ -670,16 +726,20 @@ def run(ctx: common.Ctx):
                 pk = "!" if cfg == "fs" else store(stores[2])
                 src_lines.append(f"src {fs} {pk} {enc(t)}")
                 src_impl.append(impl)
-                in_user = cfg != "pkg" and any(t == n for n, _ in stores[0] + stores[1])
-                ctx.case(("src", assign, cfg, t), in_user or any(t == n for n, _ in stores[2]))
+                canon = oracle_canonical(t)
+                in_user = cfg != "pkg" and canon is not None and any(canon == n for n, _ in stores[0] + stores[1])
+                ctx.case(("src", assign, cfg, t), in_user or any(canon == n for n, _ in stores[2]))
+                ctx.count("get_source-" + ("refused-spelling" if canon is None else "canonical" if canon == t else "other-spelling"))
+                rp = {"stream": "get_source", "config": cfg, "request": t, "result": impl,
+                      "user_dirs": [[n for n, _ in stores[0]], [n for n, _ in stores[1]]], "package": [n for n, _ in stores[2]]}
                 if in_user and not impl.startswith("user:"):
-                    ctx.fail({"kind": "builtin-shadows-user-source"}, f"get_source({t!r}) returned {impl} although a user directory has the name",
-                             {"stream": "get_source", "assignment": assign, "names": tnames, "config": cfg, "name": t, "result": impl})
+                    ctx.fail({"kind": "builtin-shadows-user-source"}, f"get_source({t!r}) returned {impl} although a user directory has {canon!r}", rp)
                 if in_user and impl.startswith("user:"):
-                    first = 0 if any(t == n for n, _ in stores[0]) else 1
+                    first = 0 if any(canon == n for n, _ in stores[0]) else 1
                     if impl != f"user:{first}":
-                        ctx.fail({"kind": "user-directory-order"}, "get_source does not take the first user directory that has the name",
-                                 {"stream": "get_source", "assignment": assign, "config": cfg, "name": t, "result": impl})
+                        ctx.fail({"kind": "user-directory-order"}, "get_source does not take the first user directory that has the name", rp)
+                if canon is None and impl != "notfound":
+                    ctx.fail({"kind": "parent-directory-request-served"}, f"get_source({t!r}) served a name with a '..' piece", rp)
     for ln, impl, m in zip(src_lines, src_impl, ask(src_lines)):
         if m is not None:
             ctx.traces += 1
@@ -814,7 +874,8 @@ def run(ctx: common.Ctx):
             ctx.case(("filter_type_to_template", variant, tuple(sorted(ustems)) if variant == "userdir" else lctx.get_target_language().name, type(v).__name__), exp is not None)
             ctx.count("generator-" + variant)
             if (None if exp is None else exp[0] + SUFFIX) != got:
-                beyond = got is not None and pathlib.PurePosixPath(got).stem not in [c.__name__ for c in chain_to_any(type(v))]
+                beyond = got is not None and pathlib.PurePosixPath(got).stem in by_name and \
+                    pathlib.PurePosixPath(got).stem not in [c.__name__ for c in chain_to_any(type(v))]
                 ctx.fail({"kind": "chain-passes-any", "stem": pathlib.PurePosixPath(got).stem} if beyond else
                          {"kind": "not-nearest-class", "via": "filter_type_to_template"},
                          f"filter_type_to_template({type(v).__name__} object) gave {got}, nearest class with a template is {exp}",
@@ -1113,6 +1174,9 @@ def replay(ctx, path):
             us, bs = {stem(p) for p in rp["user_templates"]}, {stem(p) for p in rp["builtin_templates"]}
             for n in us | bs:
                 src.set(n, (USER if n in us else 0) | (BUILTIN if n in bs else 0))
+            for user, key in ((True, "other_user_files"), (False, "other_builtin_files")):
+                for rel in rp.get(key, []):
+                    src.add_decoy(user, rel)
             seq = [by_name[n] for n in rp["lookups"]]
             warm = run_lookups(src.loader(rp["mode"]), seq)
             cold = run_lookups(src.loader(rp["mode"]), seq[-1:])
@@ -1121,6 +1185,36 @@ def replay(ctx, path):
             print(json.dumps({"sequence_results": warm, "cold_result": cold[0], "expected_nearest": exp}))
             got_stem = None if cold[0] is None else stem(cold[0])
             return 1 if (warm[-1] != cold[0] or got_stem != (exp[0] if exp else None)) else 0
+        if rp.get("stream") == "get_source":
+            from nunavut.jinja.loaders import DSDLTemplateLoader
+            from nunavut.jinja.jinja2 import Environment, TemplateNotFound
+            root = ctx.scratch / "gs"
+            dirs = [root / "u1", root / "u2"]
+            pk = Sources(ctx, 0)
+            for j, (d, names) in enumerate(zip(dirs + [pk.tpl], rp["user_dirs"] + [rp["package"]])):
+                d.mkdir(parents=True, exist_ok=True)
+                for t in names:
+                    if j < 2 and t.startswith("link/"):
+                        side = root / f"side{j}"
+                        side.mkdir(exist_ok=True)
+                        (side / t.split("/", 1)[1]).write_text(f"USR {j}")
+                        if not (d / "link").exists():
+                            os.symlink(side, d / "link", target_is_directory=True)
+                    else:
+                        (d / t).parent.mkdir(parents=True, exist_ok=True)
+                        (d / t).write_text(f"{'USR' if j < 2 else 'PKG'} {j}")
+            cfg = rp["config"]
+            ld = DSDLTemplateLoader(templates_dirs=dirs if cfg != "pkg" else None, package_name_for_templates=pk.pkgname if cfg != "fs" else None)
+            try:
+                txt = ld.get_source(Environment(), rp["request"])[0]
+                got = ("user:" if txt.startswith("USR") else "builtin:") + txt.split()[1]
+            except TemplateNotFound:
+                got = "notfound"
+            pieces = rp["request"].split("/")
+            canon = None if ".." in pieces else "/".join(x for x in pieces if x not in ("", "."))
+            in_user = cfg != "pkg" and canon is not None and any(canon in names for names in rp["user_dirs"])
+            print(json.dumps({"request": rp["request"], "canonical": canon, "a_user_directory_has_it": in_user, "result": got}))
+            return 1 if (in_user and not got.startswith("user:")) or (canon is None and got != "notfound") else 0
         if rp.get("stream") == "env":
             ns_dir = ctx.scratch / "dsdl" / "vt"
             ns_dir.mkdir(parents=True)
